@@ -337,3 +337,19 @@ void h_redcrand_sf(void)
 	VP_ASSERT(val(x, n) < M && val(y, n) < M, "zzRedCrand results fully reduced");
 	VP_ASSERT(val(x, n) == val(y, n), "SAFE == FAST zzRedCrand");
 }
+
+/* zzMod against zzDiv (two code paths for the same remainder; no arithmetic reference needed, so wider
+ * operands are affordable): catches a defect in either routine's quotient-correction step */
+void h_divmod_eq(void)
+{
+	VP_INPUT();
+	size_t n = FIX_N, k = FIX_K; word q[2 * NMAX + 2], r[NMAX + 1], r2[NMAX + 1]; void* st;
+	VP_ASSUME(in.b[k - 1] != 0);
+	st = STACK(zzDiv_deep(n, k));
+	zzDiv(q, r, in.a, n, in.b, k, st);
+	st = STACK(zzMod_deep(n, k));
+	zzMod(r2, in.a, n, in.b, k, st);
+	VP_WITNESS();
+	VP_ASSERT(wwCmp(r, in.b, k) < 0, "zzDiv remainder < divisor");
+	VP_ASSERT(wwEq(r, r2, k), "zzMod == remainder of zzDiv");
+}
